@@ -75,6 +75,9 @@ func equalp(x, y slip.Object) bool {
 	if eq(x, y) {
 		return true
 	}
+	if x == nil || y == nil {
+		return false
+	}
 	switch tx := x.(type) {
 	case slip.Character:
 		if c, ok := y.(slip.Character); ok && (c == tx || unicode.ToLower(rune(c)) == unicode.ToLower(rune(tx))) {
